@@ -85,7 +85,14 @@ def ref_row(r):
     if fn == "lookback_payoff": return max(max(r) - K, 0) if call else max(K - min(r), 0)
     if fn == "european_binary_payoff": return float(r[-1] >= K) if call else float(r[-1] <= K)
     if fn == "american_binary_payoff": return float(max(r) >= K) if call else float(min(r) <= K)
-if W.get("via") == "derivative":
+if W.get("via") == "history":
+    u0 = pi.BrownianStock(dtype=torch.float64); u0.register_buffer("spot", X * 0.5 + 0.3)
+    d = getattr(pi, W["cls"])(u0, call=call, strike=K); d.ul(); d.payoff()
+    u = pi.BrownianStock(dtype=torch.float64); u.register_buffer("spot", X * 2.0)
+    d.register_underlier("underlier", u); d.payoff()
+    u.register_buffer("spot", X)
+    got = d.payoff()
+elif W.get("via") == "derivative":
     u = pi.BrownianStock(dtype=torch.float64); u.register_buffer("spot", X)
     got = getattr(pi, W["cls"])(u, call=call, strike=K).payoff()
 else:
@@ -106,6 +113,18 @@ def payoff_case(fname, call, via):
             if via == 'function':
                 return getattr(F, fname)(x, call=call, strike=SReal(K))
             u = pi.BrownianStock(dtype=torch.float64)
+            if via == 'history':
+                # call history: the derivative was built on ANOTHER stock and evaluated; then its underlier was replaced under the same
+                # name by a stock that had itself been simulated before (its buffer replaced once): the payoff is on the current paths
+                u0 = pi.BrownianStock(dtype=torch.float64)
+                u0.register_buffer('spot', Tensor.input('X0', (N, T), torch.float64))
+                d = getattr(pi, CLS[fname])(u0, call=call, strike=SReal(K))
+                d.ul(); d.payoff(); d.payoff_fn()
+                u.register_buffer('spot', Tensor.input('X1', (N, T), torch.float64))
+                d.register_underlier('underlier', u)
+                d.payoff()
+                u.register_buffer('spot', x)
+                return d.payoff()
             u.register_buffer('spot', x)
             d = getattr(pi, CLS[fname])(u, call=call, strike=SReal(K))
             return d.payoff_fn() if via == 'payoff_fn' else d.payoff()
@@ -114,7 +133,7 @@ def payoff_case(fname, call, via):
             n = p.ctx.fresh('n', 'I')
             return [('payoff[n]', [tm.le(tm.IZERO, n), tm.lt(n, N)], res.at((n,)), SPECS[(fname, call)](n, p.ctx))]
         case = fc.Case(run, hyps=DIMS, ensures=ens, shape=lambda res: (N,), dtype=torch.float64, scalars=['K'], tensors={'X': ((N, T), 'R')}, real_snippet=REAL)
-        case.witness_extra = {'fn': fname, 'call': call, 'via': 'derivative' if via != 'function' else 'function', 'cls': CLS[fname]}
+        case.witness_extra = {'fn': fname, 'call': call, 'via': 'history' if via == 'history' else ('derivative' if via != 'function' else 'function'), 'cls': CLS[fname]}
         return case
     return build
 
@@ -354,6 +373,9 @@ def build(tier, seed):
                                   '%s(%s) == contractual definition for every path, all N, T >= 1 (ties with the strike included)' % (fname, tag)))
         obs.append(fc.contract_ob('C12/%s.payoff/post[%s]' % (CLS[fname], tag), 'pfhedge.instruments.derivative.%s.payoff_fn' % CLS[fname], [PROP], payoff_case(fname, call, 'payoff'),
                                   '%s(call=%s, strike=K).payoff() == the same definition on the underlier\'s spot' % (CLS[fname], call)))
+        if call:
+            obs.append(fc.contract_ob('C12/%s.payoff/post[%s,after an evaluation on another underlier]' % (CLS[fname], tag), 'pfhedge.instruments.derivative.%s.payoff_fn' % CLS[fname], [PROP], payoff_case(fname, call, 'history'),
+                                      '%s.payoff() follows the CURRENT underlier and its CURRENT paths: evaluated on another stock first, then re-targeted (register_underlier under the same name) and re-simulated' % CLS[fname]))
     obs += forward_start_obs() + [variance_swap_ob()] + ordering_obs() + clause_obs()
     obs.append(fc.contract_ob('C12/canary/binary-strict-at-tie', '', [PROP], _canary(), 'CANARY (must be refuted): European binary put pays on S_T < K only', kind='canary'))
     return {'obligations': obs, 'functions': FUNCTIONS, 'assumptions': ASSUMPTIONS, 'level': 'proof',
